@@ -164,12 +164,65 @@ def shards(tier, seed):
     return [{'n': n} for _ in range(16)]
 
 
+def url_lists_are_fresh(case, ctx):
+    """multi-segment URL values are lists: every request gets its own, freshly converted one - also when an earlier request
+    for the very same path changed the list it was handed (two requests never share a URL value)"""
+    from clastic import Application, Route, Response, Middleware
+    from vlib.wsgi import call
+    seen = []
+
+    class Tagger(Middleware):
+        def request(self, next, parts):
+            seen.append(('mw', list(parts) if parts is not None else None))
+            if isinstance(parts, list):
+                parts.append('zq9-added-by-middleware')
+            return next()
+
+    def ep(parts):
+        seen.append(('ep', list(parts) if parts is not None else None))
+        if isinstance(parts, list):
+            parts.insert(0, 'zq9-added-by-endpoint')
+            parts.pop()
+        return Response('ok')
+    pattern, path, conv, mode = case['pattern'], case['path'], case['conv'], case['mode']
+    app = Application([Route(pattern, ep, middlewares=[Tagger()])], slash_mode=mode)
+    segs = [s for s in path.split('/')[2:] if s]
+    want = [int(x) for x in segs] if conv == 'int' else segs
+    for k in range(4):
+        del seen[:]
+        r = call(app, path)
+        ctx.requests += 1
+        if r.exc is not None or r.status != 200:
+            ctx.mismatch('request-status', 'GET %s (request %d on %s): %s %r' % (path, k + 1, pattern, r.status, r.exc), case)
+            return
+        exp = [('mw', want), ('ep', want + ['zq9-added-by-middleware'])]       # within one request the value is one object
+        if seen != exp:
+            ctx.mismatch('wrong-source-url', 'GET %s, request %d for this path on %s (%s): functions were handed %r, expected %r - '
+                         'a URL value of an earlier request came back' % (path, k + 1, pattern, mode, seen, exp), case)
+            return
+    ctx.event('url-list-freshness')
+    ctx.nt(['url-lists', case['pattern'], case['path'], case['mode']], sample=False)
+
+
 def run_shard(spec, ctx):
     ctx.extra['hashseeds'] = 0
+    if ctx.shard == 0:
+        for mode in ('strict', 'redirect', 'rewrite'):
+            for pattern, path, conv in (('/m/<parts+>', '/m/a/b/c', 'str'), ('/o/<parts*>', '/o', 'str'), ('/o/<parts*>', '/o/x', 'str'),
+                                        ('/i/<parts+int>', '/i/1/2', 'int'), ('/f/<parts*>/', '/f/', 'str'), ('/f/<parts*>/', '/f/p/q/', 'str')):
+                case = {'kind': 'url-lists', 'pattern': pattern, 'path': path, 'conv': conv, 'mode': mode}
+                ctx.case(case)
+                try:
+                    url_lists_are_fresh(case, ctx)
+                except Exception as e:
+                    ctx.classify_exc(e, case, 'url-lists')
     ctx.hyp(strategy(), body, spec['n'], kind='cfg')
     import os
     ctx.note('PYTHONHASHSEED=%s in shard %d' % (os.environ.get('PYTHONHASHSEED'), ctx.shard))
 
 
 def replay(case, kind, ctx):
+    if isinstance(case, dict) and case.get('kind') == 'url-lists':
+        url_lists_are_fresh(case, ctx)
+        return
     body(case, ctx)
